@@ -284,6 +284,7 @@ class FakeProcess(object):
         self.killed_by = None
         self.ignores_sigterm = False
         self.kill_failed = False
+        self.exit_hangs = False      # the process cannot finish its orderly exit (a non-daemon thread left behind by its work)
         self.daemon = False
         self.parent = mp.current_proc()
 
@@ -319,6 +320,9 @@ class FakeProcess(object):
                 # an orderly exit may take a while (non-daemon threads, atexit handlers); a SIGKILL does not wait
                 if mp.exit_delay and not self.task.killed and self.name != 'helper':
                     sim.sleep(mp.exit_delay)
+                if self.exit_hangs and not self.task.killed:
+                    sim.run.probe('worker_process_cannot_exit')
+                    sim.sleep(1e9)          # interpreter shutdown waits for the non-daemon thread for ever; only a kill ends it
         self.task = sim.spawn(body, name='%s[%d]' % (self.name, self.pid), proc=self, start=False)
         self.task.on_exit = self._on_exit
         sim.start_task(self.task)
